@@ -1,7 +1,7 @@
 """The component alphabet of the declaration language, declaration enumeration, feature scan, inputs."""
 import itertools
 
-from mc.ir import (PKT, I, D, DM, DR, DEOS, B, R, RS, S, O, EM, pos, F, C, BIN, subpackets)
+from mc.ir import (PKT, I, D, DM, DR, DEOS, B, R, RS, S, O, EM, pos, F, C, BIN, PV, subpackets)
 
 SUB = PKT('Sub', [('x', I(1)), ('y', D(F('x')))])
 PT = PKT('Pt', [('x', I(1)), ('y', I(1, default=2))])
@@ -43,6 +43,8 @@ def components():
     add('m0i', lambda i: [('d%d' % i, DM(b'\x00', incl=True))])
     add('rx', lambda i: [('d%d' % i, DR(b'X+', incl=True))])
     add('rxy', lambda i: [('d%d' % i, DR(b'[XY]', incl=True))])
+    add('rxlb', lambda i: [('d%d' % i, DR(b'(?<!Y)X', incl=True))])      # a delimiter that looks at the byte BEFORE it
+    add('rxwb', lambda i: [('d%d' % i, DR(b'\\bX', incl=True))])
     add('eos', lambda i: [('d%d' % i, DEOS())])
     add('m0nc', lambda i: [('d%d' % i, DM(b'\x00', consume=False))])
     add('rxnk', lambda i: [('d%d' % i, DR(b'X+', incl=False))])
@@ -59,6 +61,7 @@ def components():
     add('rvec', lambda i: [('s%d' % i, R(VEC))])
     add('rbag', lambda i: [('s%d' % i, R(BAG))])
     add('rs', lambda i: [('t%d' % i, I(1)), ('u%d' % i, RS(F('t%d' % i), _sel_table(), 0))])
+    add('rsd', lambda i: [('t%d' % i, I(1)), ('u%d' % i, RS(F('t%d' % i), [(1, I(1)), (3, BAG)], PV('Bag', {'num': 1, 'objs': [9]}), form='lambda'))])
     add('rsl', lambda i: [('t%d' % i, I(1)), ('u%d' % i, RS(F('t%d' % i), _sel_table(), 0, form='lambda'))])
     # ---- repeated
     add('s2', lambda i: [('l%d' % i, S(I(1), C(2)))])
@@ -85,6 +88,7 @@ def components():
     add('suw', lambda i: [('t%d' % i, I(1)), ('l%d' % i, S(I(1), until={'u': 'last_eq', 'v': 0}, when=F('t%d' % i), wsp='lambda'))])
     add('sa', lambda i: [('n%d' % i, I(1)), ('l%d' % i, S(I(1), F('n%d' % i), aligned=2))])
     add('sra', lambda i: [('n%d' % i, I(1)), ('l%d' % i, S(R(SUB), F('n%d' % i), aligned=4))])
+    add('srd', lambda i: [('l%d' % i, S(R(PT), C(1), default=[PV('Pt', {'x': 4, 'y': 2}), PV('Pt', {'x': 5, 'y': 6})]))])
     add('sd', lambda i: [('l%d' % i, S(I(1), C(2), default=[7, 8]))])
     # ---- optional
     add('o1', lambda i: [('t%d' % i, I(1)), ('o%d' % i, O(I(1), F('t%d' % i)))])
@@ -93,6 +97,7 @@ def components():
     add('om', lambda i: [('t%d' % i, I(1)), ('o%d' % i, O(DM(b'\x00'), F('t%d' % i), wsp='lambda'))])
     add('os', lambda i: [('t%d' % i, I(1)), ('o%d' % i, O(I(2, signed=True), F('t%d' % i)))])
     add('od', lambda i: [('t%d' % i, I(1)), ('o%d' % i, O(I(1), F('t%d' % i), default=7))])
+    add('ord', lambda i: [('t%d' % i, I(1)), ('o%d' % i, O(R(PT), F('t%d' % i), default=PV('Pt', {'x': 7, 'y': 2})))])
     add('oo', lambda i: [('t%d' % i, I(1)), ('o%d' % i, O(I(1), F('t%d' % i))), ('w%d' % i, O(I(1), F('o%d' % i)))])
     # ---- positioning
     add('p_at3', lambda i: [('a%d' % i, pos(I(1), 'at', C(3)))])
@@ -122,7 +127,7 @@ def components():
 COMPONENTS = components()
 
 # one representative per mechanism, used for pairs in the quick tier and triples in the thorough tier
-REDUCED = ['i1', 'i2l', 'i3', 'dn', 'dx', 'm0', 'mab', 'rx', 'b35', 'r1', 'rs', 'sn', 'ss', 'su', 'suo', 'sw', 'sa', 'sr', 'o1', 'os', 'or',
+REDUCED = ['i1', 'i2l', 'i3', 'dn', 'dx', 'm0', 'mab', 'rx', 'rxlb', 'b35', 'r1', 'rs', 'sn', 'ss', 'su', 'suo', 'sw', 'sa', 'sr', 'o1', 'os', 'or',
            'p_at3', 'p_atn', 'p_shm1', 'p_shm2d', 'p_al2', 'p_al4i', 'p_em4', 'p_d0', 'eos']
 
 
